@@ -302,6 +302,10 @@ impl LsmVerifier {
         if let Some(o) = output.key() {
             return Err(corruption("data construction").with_debug_field("output", o));
         }
+        if let Some(gc_next) = gc_next {
+            // NOTE(rescrv):  The outputs are exhausted, yet the collector retains this key.
+            return Err(corruption("data loss").with_debug_field("gc", gc_next));
+        }
         while let Some(i) = input.key_value() {
             let mut setsum = sst::Setsum::default();
             setsum.insert(i);
